@@ -15,13 +15,13 @@ JOPTS = ["-XX:ParallelGCThreads=2", "-XX:TieredStopAtLevel=1"]
 # ================================================================================================ C17
 
 OPNAME = dict(idx="index-assign", idxaug="index-augassign", newkey="dict-new-key", setdefault="setdefault",
-              aug="augassign", sorted="sorted", reversed="reversed", rebind="rebind", concat="list-concat")
-ONNAME = dict(F="exported-list-with-spare-capacity", L="exported-list", N="exported-list-of-lists", D="exported-dict", x="previous-result",
+              aug="augassign", sorted="sorted", sortedrev="sorted-reverse", reversed="reversed", rebind="rebind", concat="list-concat")
+ONNAME = dict(A="exported-sorted-list", Z="exported-reverse-sorted-list", F="exported-list-with-spare-capacity", L="exported-list", N="exported-list-of-lists", D="exported-dict", x="previous-result",
               N0="list-nested-in-exported-list", Dk="list-nested-in-exported-dict",
               getL="global-returned-by-function", mk="constant-list-of-subinclude-function",
               dflt="constant-list-of-subinclude-function", mkdk="constant-list-of-subinclude-function",
               mkd="dict-returned-by-function")
-TGT_EXPR = dict(F="F", L="L", N="N", D="D", x="x", N0="N[0]", Dk='D["k"]', getL="getL()", mk="mk()", dflt="dflt()",
+TGT_EXPR = dict(A="A", Z="Z", F="F", L="L", N="N", D="D", x="x", N0="N[0]", Dk='D["k"]', getL="getL()", mk="mk()", dflt="dflt()",
                 mkd="mkd()", mkdk='mkd()["k"]')
 
 
@@ -40,14 +40,14 @@ def render_defs(d):
             "def mk():\n    return %s\n"
             "def dflt(x=%s):\n    return x\n"
             "def mkd():\n    return {\"k\": %s}\n"
-            "F = [e for e in %s if e < 5]\n") % (lit(d["L"]), lit(d["N"]), lit(d["Dk"]), lit(d["K"]), lit(d["K"]), lit(d["Dk"]), lit(d["F"] + [5]))
+            "F = [e for e in %s if e < 5]\nA = %s\nZ = %s\n") % (lit(d["L"]), lit(d["N"]), lit(d["Dk"]), lit(d["K"]), lit(d["K"]), lit(d["Dk"]), lit(d["F"] + [5]), lit(d["A"]), lit(d["Z"]))
 
 
-P2_SRC = ('text_file(name = "v", content = json({"L": L, "N": N, "D": D, "getL": getL(), "mk": mk(), "dflt": dflt(), "mkd": mkd(), "F": F, "Fcat": F + [8]}))\n'
+P2_SRC = ('text_file(name = "v", content = json({"L": L, "N": N, "D": D, "getL": getL(), "mk": mk(), "dflt": dflt(), "mkd": mkd(), "F": F, "Fcat": F + [8], "A": A, "Z": Z}))\n'
           'filegroup(name = "fg", srcs = ["f%d" % e for e in L], labels = ["l%d" % e for e in N[0]])\n'
           'genrule(name = "gr", srcs = ["s%d" % e for e in mk()], outs = ["o%d" % e for e in dflt()],\n'
           '        cmd = "echo " + " ".join([str(e) for e in D["k"]] + [str(e) for e in mkd()["k"]]) + " > $OUT")\n')
-PROBES = ("L", "N", "D", "getL", "mk", "dflt", "mkd", "F", "Fcat")
+PROBES = ("L", "N", "D", "getL", "mk", "dflt", "mkd", "F", "Fcat", "A", "Z")
 
 
 def expected_view(e):
@@ -81,6 +81,7 @@ def op_stmts(op, a, kind):
             "aug": ["%s += [9]" % a],
             "concat": ["%s = %s + [9]" % (a, a)],
             "sorted": ["%s = sorted(%s)" % (a, a)],
+            "sortedrev": ["%s = sorted(%s, reverse = True)" % (a, a)],
             "reversed": ["%s = reversed(%s)" % (a, a)]}[op]
 
 
@@ -92,6 +93,8 @@ def render_step(i, m):
     if via == "direct":
         if op in ("sorted", "reversed"):
             return ["x = %s(%s)" % (op, e)]
+        if op == "sortedrev":
+            return ["x = sorted(%s, reverse = True)" % e]
         if op == "concat":
             return ["x = %s + [9]" % e]
         return op_stmts(op, e, kind)
@@ -152,7 +155,7 @@ def scopes_cases(ctx):
     if quick:
         jobs = [("MC_AspScopes_fixed_q.cfg", False), ("MC_AspScopes_known_q.cfg", True)]
     else:
-        jobs = [("MC_AspScopes_fixed.cfg", False), ("MC_AspScopes_known.cfg", True), ("MC_AspScopes_sortonly.cfg", False),
+        jobs = [("MC_AspScopes_fixed.cfg", False), ("MC_AspScopes_known.cfg", True), ("MC_AspScopes_sortonly.cfg", True), ("MC_AspScopes_sortalias.cfg", True),
                 ("MC_AspScopes_shallow.cfg", True), ("MC_AspScopes_consts.cfg", True), ("MC_AspScopes_race.cfg", True),
                 ("MC_AspScopes_race_seq.cfg", False)]
     design = {}
@@ -392,7 +395,14 @@ def run_c17(ctx):
             app = [i for i, m in enumerate(c["muts"]) if m["tgt"] == "F" and m["op"] in ("aug", "concat")]
             later = [m for i, m in enumerate(c["muts"]) if app and i > app[0] and m["tgt"] in ("x", "F")
                      and m["op"] in ("idx", "sorted", "reversed")]
-            if app and set(kinds) <= CONC_KINDS:     # the race on the shared cell, seen on this sequence but not on the append alone
+            # the result of sorted()/reversed() on something shared, mutated afterwards: the builtin returned an alias
+            blt = [i for i, m in enumerate(c["muts"]) if m["op"] in ("sorted", "sortedrev", "reversed") and m["tgt"] != "x"]
+            after = [m for i, m in enumerate(c["muts"]) if blt and i > blt[0] and m["tgt"] == "x" and m["op"] in ("idx", "idxaug", "sorted", "sortedrev", "reversed")]
+            if blt and after and not (app and app[0] < blt[0]):
+                first = c["muts"][blt[0]]
+                for s in sorted({OPNAME[m["op"]] for m in after}):
+                    ctx.violation("C17 leak via=%s on=result-of-%s-of-%s" % (s, OPNAME[first["op"]], ONNAME[first["tgt"]]), detail)
+            elif app and set(kinds) <= CONC_KINDS:     # the race on the shared cell, seen on this sequence but not on the append alone
                 ctx.violation("C17 leak " + sig_of(c["muts"][app[0]]) + " (concurrent only)", detail)
             elif later and not set(kinds) <= CONC_KINDS:
                 for s in sorted({OPNAME[m["op"]] for m in later}):
